@@ -23,7 +23,7 @@ META = {
                     "answers delayed between 2h-2.1 and 2h+2 s, periodic traffic slower than h-1.1 without answers, and sessions that are not ACTIVE are unspecified, except that an inbound TestRequest, the echo of an outstanding TestReqID and a wrong TestReqID are also judged when they arrive numbered ahead of an open gap"],
 }
 REQUIRED_ORACLES = ["silent:testrequest-time", "silent:disconnect-time", "live:survives", "echo:testreqid", "one-outstanding", "wrong-id:logout"]
-REQUIRED_COUNTERS = ["probe_writes_refused"]
+REQUIRED_COUNTERS = ["probe_writes_refused", "renumberings_while_a_testrequest_was_outstanding", "orders_sent_into_the_silence"]
 NSHARDS = 16
 HB = {"quick": [1, 2, 3, 5, 10, 30], "thorough": [1, 2, 3, 4, 5, 6, 7, 8, 9, 10, 11, 12, 15, 20, 30, 45, 60]}
 PHASES = {"quick": [0.0, 0.25, 0.5, 0.9], "thorough": [0.0, 0.1, 0.2, 0.3, 0.4, 0.5, 0.6, 0.7, 0.8, 0.95]}
@@ -55,6 +55,9 @@ def scenarios(tier):
                     # a dead peer whose socket also refuses the TestRequest: silent, and the write of the probe fails
                     for fault in ("reset-once", "reset-always", "pipe-always", "runtime-always"):
                         out.append((h, role, ph, "silent-write-fails", fault))
+                    # the application renumbers the session (reset_seq_num) while a TestRequest is outstanding: a different feature used
+                    # inside the probe's window changes nothing about the probe
+                    out.append((h, role, ph, "reset-while-outstanding", 0))
                     # a silent peer while the local application keeps sending (what goes OUT says nothing about the peer being alive)
                     for every in (0.3, 0.45):
                         out.append((h, role, ph, "silent-while-sending", round(every * h, 3)))
@@ -214,6 +217,34 @@ async def scenario(acc, clock, sc, cid, rnd=None):
             if s.ep.disconnects != 1 and s.disconnected():
                 s.V("watchdog:on_disconnect-count", f"on_disconnect called {s.ep.disconnects} times")
             check_outstanding(s)
+            return True
+        if kind == "reset-while-outstanding":
+            t0 = s.last_feed()
+            t_lim = s.clock.now + h + 2
+            while not s.sent_tr and not s.disconnected() and s.clock.now < t_lim:
+                await asyncio.sleep(0.25)          # until the probe goes out
+            if not s.sent_tr:
+                s.V("silent:no-testrequest", f"no TestRequest within {h + 2}s of silence")
+                return True
+            if s.disconnected():
+                return True
+            n_before = len(s.sent_tr)
+            try:
+                await s.ep.reset_seq_num()
+            except Exception as e:
+                s.V(f"reset_seq_num-raised:{type(e).__name__}", repr(e))
+                return True
+            acc.add("renumberings_while_a_testrequest_was_outstanding")
+            await run_until(s, 2 * h + 6)
+            acc.oracle("one-outstanding")
+            if len(s.sent_tr) > n_before and s.max_outstanding > 1:
+                s.V("two-testrequests-outstanding:after-reset_seq_num", f"a second TestRequest went out after reset_seq_num() while the first was unanswered: {s.sent_tr[-3:]}")
+            acc.oracle("silent:disconnect-time")
+            if not s.disconnected():
+                s.V("silent:not-disconnected:after-reset_seq_num", f"peer silent for {3 * h + 8}s in total, reset_seq_num() called while the probe was outstanding: "
+                    f"state {s.ep.connection_state.name}")
+            elif s.tdisc is not None and s.tdisc - t0 > 3 * h + 2 + eps:
+                s.V("silent:disconnect-late", f"disconnected {s.tdisc - t0:.3f}s after the last inbound frame, h={h}")
             return True
         if kind == "silent-while-sending":
             from asyncfix import FIXMessage
